@@ -603,10 +603,15 @@ class BatchWorld(ProducerWorld):
     def inflight(self):
         if self.seam_pending or self.meta_pending:
             return True
+        # any one-shot timer (the producer's retry timer, a reconnect backoff) means a batch is still in progress;
+        # periodic timers (the batch time limit) and the simulator's own timers do not
         for c in self.clock.pending():
             name = getattr(c.func, "__qualname__", "") or repr(c.func)
-            if name.startswith("Deferred.callback"):
-                return True
+            owner = getattr(c.func, "__self__", None)
+            if "LoopingCall" in name or type(owner).__name__ == "LoopingCall" or "SimCluster" in name or \
+                    "VNet" in name:
+                continue
+            return True
         return False
 
     def check_step(self, label):
